@@ -47,6 +47,7 @@ PolyVal(idx0, shift, power, scale) == LET F(k) == Pow(idx0[k] + shift[k], power)
 MaxMode(n) == CHOOSE m \in { n[k] : k \in 1..Len(n) } : \A k \in 1..Len(n) : n[k] <= m
 SignedIdx(n) == { i \in [1..Len(n) -> (0 - MaxMode(n))..(MaxMode(n) - 1)] : \A k \in 1..Len(n) : i[k] \in (0 - n[k])..(n[k] - 1) }
 NormIdx(i, n) == [k \in 1..Len(n) |-> IF i[k] >= 0 THEN i[k] ELSE n[k] + i[k]]
+PolyLong == { <<2, 3, 3, 2>>, <<2, 2, 2, 2, 2>>, <<3, 2, 2, 2, 3, 2>> }
 Cases ==
   UNION { {[kind |-> "const", n |-> n, zs |-> zs, inz |-> inz] :
              zs \in UNION {[1..z -> AllIdx(n)] : z \in 0..ZMax}, inz \in AllIdx(n) \cup {<<>>}} : n \in ShapesC } \cup
@@ -55,6 +56,9 @@ Cases ==
   {[kind |-> "mdelta", q |-> q, i |-> i, j |-> j] : q \in 1..(QMax - 1), i \in (-(2^(QMax-1)) - 1)..(2^(QMax-1)), j \in (-(2^(QMax-1)) - 1)..(2^(QMax-1))} \cup
   {[kind |-> "poly", n |-> n, shift |-> [k \in 1..Len(n) |-> sh + (k % 2)], power |-> pw, scale |-> sc] :
       n \in ShapesC, sh \in {-1, 0, 2}, pw \in {1, 2, 3}, sc \in {1, -2}} \cup
+  \* longer shapes with repeated inner mode sizes and a different shift on every mode (per-mode cores must not be shared)
+  {[kind |-> "poly", n |-> n, shift |-> [k \in 1..Len(n) |-> sh + k * st], power |-> pw, scale |-> sc] :
+      n \in PolyLong, sh \in {-3, 0}, st \in {1, -2}, pw \in {1, 2, 3}, sc \in {1, -2}} \cup
   {[kind |-> "randshape", n |-> n, r |-> r] : n \in ShapesC, r \in {1, 2, 5}}
 
 Init == c \in Cases
